@@ -101,3 +101,9 @@ Proof.
   intros T w1 NJ. cbn [step fst].
   rewrite (quiet_until_join fuel stk w1 h); [reflexivity | apply terminal_broadcast_snapshot; exact T | exact NJ].
 Qed.
+
+(* Observable::inner_subscribe: an observer that has already ended is never handed to a source - whatever the pipeline (cold or
+   hot source, subject, connectable, any operator): the step changes nothing and asks for nothing. *)
+Theorem dead_observer_subscribes_nothing p o w :
+  is_sub (obs w o) = false -> step (SubscribePipe p o) w = ([], w).
+Proof. intro H. cbn [step]. rewrite H. reflexivity. Qed.
